@@ -66,6 +66,31 @@ def appendV4 (x n : Nat) : Prefix := (Prefix.mk (v4mapped x) (n + 96)).masked
 /-- `List.Append` for an IPv6 prefix. -/
 def appendV6 (x n : Nat) : Prefix := (Prefix.mk x n).masked
 
+/-! Text loading. A parsed, zone-free `netip.Addr` is a pair `(is6, value)`:
+`is6` = `Addr.Is6()`, the 16-byte form (an IPv4-mapped `::ffff:a.b.c.d` is one of
+them), value `< 2^128`; otherwise the 4-byte form, value `< 2^32`. -/
+
+abbrev PAddr := Bool × Nat
+
+/-- `to6`: the 128-bit number `Append` and `Contains` work with. -/
+def PAddr.to6 (a : PAddr) : Nat := if a.1 then a.2 else v4mapped a.2
+
+def PAddr.Valid (a : PAddr) : Prop := if a.1 then a.2 < 2 ^ 128 else a.2 < 2 ^ 32
+
+/-- `List.Append(netip.PrefixFrom(a, bits))`: `+96` only for the 4-byte form. -/
+def append (a : PAddr) (bits : Nat) : Prefix := if a.1 then appendV6 a.2 bits else appendV4 a.2 bits
+
+/-- The prefix length a line without `/` gets: the full length of the address *form*. -/
+def hostBits (a : PAddr) : Int := if a.1 then 128 else 32
+
+/-- What `LoadFromText` (list files) and `ip_set.parseNetipPrefix` (inline `ips`) hand to
+`Append` for one line: a CIDR line is taken as parsed, a single address gets `hostBits`. -/
+def loadLine (hasSlash : Bool) (parsedPrefix : Option (PAddr × Int)) (parsedAddr : Option PAddr) : Option (PAddr × Int) :=
+  if hasSlash then parsedPrefix else parsedAddr.map (fun a => (a, hostBits a))
+
+/-- The stored prefix for a loaded line. -/
+def storeLine (r : PAddr × Int) : Prefix := append r.1 r.2.toNat
+
 /-- Sorting by base: insertion sort (any stable or unstable sort yields a
 list the theorems cover; this one is for the driver). -/
 def insertSorted (p : Iv) : List Iv → List Iv
